@@ -14,7 +14,7 @@ MANIFEST = {
         "engine": "tlc+go-harness", "design_ref": "DESIGN.md section 4 (C17), Appendix A",
         "technique": "TLA+ spec Epochs.tla; TLC exhaustive MC; TLC-generated behaviours replayed on the real keeper; recorded schedules trace-validated by TLC; "
                      "Apalache inductive invariant + TLAPS proof of the timer arithmetic over unbounded integers (design level)",
-        "text": "Epochs.tla models BeginBlocker as StartBlock/Call/EndBlock/Abort. TLC checks grid, once-per-block, tick-exactly-when-due, signal order and containment exhaustively on a bounded model (8.6e5 states quick); one behaviour per distinct idle state of a second bounded model (2.3e4 quick, 1e5 thorough) is executed on the real x/epochs keeper with scripted subscribers and compared after every block; random block-time/fault schedules recorded from the real keeper (timers 1-4, units ns..h, ok/err/panic/out-of-gas (both panic values of the gas meters: limit exceeded and counter overflow) with partial writes) are validated line by line by TLC with every property as invariant. Design level, unbounded parameters: for one timer with any start time, any "
+        "text": "Epochs.tla models BeginBlocker as StartBlock/Call/EndBlock/Abort. TLC checks grid, once-per-block, tick-exactly-when-due, signal order and containment exhaustively on a bounded model (8.6e5 states quick); one behaviour per distinct idle state of a second bounded model (2.3e4 quick, 1e5 thorough) is executed on the real x/epochs keeper with scripted subscribers and compared after every block; random block-time/fault schedules recorded from the real keeper (timers 1-4, units ns..h, ok/err/panic (panic values: string, plain error, wrapped error, runtime error, arbitrary value)/out-of-gas (both panic values of the gas meters: limit exceeded and counter overflow) with partial writes) are validated line by line by TLC with every property as invariant. Design level, unbounded parameters: for one timer with any start time, any "
                 "duration >= 1 and any non-decreasing block times, grid, nothing-before-start, at most one tick per block and exactly when due, and the signal "
                 "count/order relation (ends = starts - 1, every signal in its place) are an inductive invariant of the typed sub-model spec/apa/EpochsInd.tla, "
                 "checked by Apalache (initiation, consecution, implication, two broken variants that must fail) and proved by TLAPS (EpochsProof.tla); subscriber "
